@@ -1,0 +1,68 @@
+//go:build verif
+// +build verif
+
+package vss
+
+import (
+	"github.com/DOSNetwork/core/suites"
+	"github.com/dedis/kyber"
+	"github.com/dedis/kyber/sign/schnorr"
+)
+
+// Verification hooks (build tag verif): thin exports, no logic of their own.
+
+// VerifSeal seals an arbitrary (possibly inconsistent) plaintext deal for the
+// verifier at index i with the package's own Dealer.EncryptedDeal (ephemeral
+// key, dealer signature, key derivation, AEAD and context are the package's).
+func VerifSeal(suite suites.Suite, dealerLong kyber.Scalar, verifiers []kyber.Point, i int, d *Deal) (*EncryptedDeal, error) {
+	deals := make([]*Deal, len(verifiers))
+	if i >= 0 && i < len(deals) {
+		deals[i] = d
+	}
+	pub := suite.Point().Mul(dealerLong, nil)
+	dl := &Dealer{suite: suite, long: dealerLong, pub: pub, verifiers: verifiers, deals: deals,
+		hkdfContext: context(suite, pub, verifiers)}
+	return dl.EncryptedDeal(i)
+}
+
+// VerifSealBytes is VerifSeal for a raw plaintext (byte strings that are not the
+// encoding of any Deal): the same calls as Dealer.EncryptedDeal, in the same order.
+func VerifSealBytes(suite suites.Suite, dealerLong kyber.Scalar, verifiers []kyber.Point, i int, plaintext []byte) (*EncryptedDeal, error) {
+	vPub, ok := findPub(verifiers, uint32(i))
+	if !ok {
+		return VerifSeal(suite, dealerLong, verifiers, i, nil)
+	}
+	dhSecret := suite.Scalar().Pick(suite.RandomStream())
+	dhPublic := suite.Point().Mul(dhSecret, nil)
+	dhBytes, _ := dhPublic.MarshalBinary()
+	signature, err := schnorr.Sign(suite, dealerLong, dhBytes)
+	if err != nil {
+		return nil, err
+	}
+	ctx := context(suite, suite.Point().Mul(dealerLong, nil), verifiers)
+	gcm, err := newAEAD(suite.Hash, dhExchange(suite, dhSecret, vPub), ctx)
+	if err != nil {
+		return nil, err
+	}
+	nonce := make([]byte, gcm.NonceSize())
+	return &EncryptedDeal{DHKey: dhBytes, Signature: signature, Nonce: nonce, Cipher: gcm.Seal(nil, nonce, plaintext, ctx)}, nil
+}
+
+// VerifSessionID is the package's session identifier function.
+func VerifSessionID(suite suites.Suite, dealer kyber.Point, verifiers, commitments []kyber.Point, t int) ([]byte, error) {
+	return sessionID(suite, dealer, verifiers, commitments, t)
+}
+
+// VerifContext is the package's HKDF/AAD context function.
+func VerifContext(suite suites.Suite, dealer kyber.Point, verifiers []kyber.Point) []byte {
+	return context(suite, dealer, verifiers)
+}
+
+// VerifAggSessionID returns the session id the verifier's aggregator compares responses with
+// (nil before a deal was processed).
+func (v *Verifier) VerifAggSessionID() []byte {
+	if v.aggregator == nil {
+		return nil
+	}
+	return v.aggregator.sid
+}
